@@ -52,13 +52,25 @@ class C09(common.Spec):
             edzed.reset_circuit()
             circuit = edzed.get_circuit()
 
+            class TaggedCircuit(Tagged, edzed.EdzedCircuitError):
+                pass
+
+            class TaggedInvalid(Tagged, edzed.EdzedInvalidState):
+                pass
+
+            class TaggedEdzed(Tagged, edzed.EdzedError):
+                pass
+            handler_exc = {'circuit': TaggedCircuit, 'invalid': TaggedInvalid, 'edzed': TaggedEdzed}.get(
+                case.get('handler_exc'), Tagged)
+
             class HP(edzed.SBlock):
                 def init_regular(self):
                     self.set_output(0)
 
                 def _event_boom(self, *, value, **_d):
                     log.append(['src', 'handler', value])
-                    raise Tagged(value)
+                    # "an exception raised inside an event handler": of ANY class, edzed's own included
+                    raise handler_exc(value)
 
                 def _event_needs(self, *, needed, **_d):
                     return None
@@ -400,6 +412,7 @@ def gen_case(rng):
         sups.append([rng.choice(grid), what, tag])
         tag += 1
     return dict(events=events, sups=sups, tail_us=rng.choice([0, 150_000]),
+                handler_exc=rng.choice(['plain', 'plain', 'circuit', 'invalid', 'edzed']),
                 async_init_error=rng.random() < 0.15, restore_error=rng.choice([False] * 17 + [True, 'runtime', 'os', 'custom', 'circuit', 'key']),
                 stop_error=rng.choice([False] * 11 + [True, 'async']),
                 sync_init_error=rng.choice([None] * 12 + ['direct', 'via_restore', 'via_async', 'abort_in_init']))
@@ -412,7 +425,8 @@ def check(run):
                 "'shutdown' control events, shutdown(), abort() before the start, external events with "
                 "wrong parameters / unknown type) fired at chosen virtual instants incl. the same "
                 "instant, combined with 0..2 supporting coroutines that fail / return / run on, and "
-                "with failing async init, failing state restoration and failing stop(); every "
+                "with failing async init, failing state restoration and failing stop(); the handler's exception is a "
+                "plain Exception subclass or a subclass of EdzedCircuitError / EdzedInvalidState / EdzedError; every "
                 "injected exception carries an identity tag. Observed: the order in which things "
                 "reached Circuit.abort()/the simulator, Circuit.error, the outcome of run() and "
                 "shutdown(), is_ready() afterwards. Non-trivial = >= 2 sources.")
